@@ -152,15 +152,143 @@ type reqT struct {
 	stream string   // "", "i", "o", "io": keep the connection open until the attach notice
 	sni    string
 	client string
+	// abs: the request-target was sent in absolute-form (scheme://userinfo@host/path?query); for the
+	// classes that echo the whole target the judgement is absMatch instead of plain containment
+	abs   string
+	absPw bool   // the userinfo has a password component (possibly empty)
+	sub   string // sub-class, counted separately
 }
 
 func idChars(c byte) bool {
 	return c > 32 && c < 127 && c != '"' && c != '\\' && c != '/' && c != '?' && c != '#'
 }
 
+// ---- absolute-form request-targets ------------------------------------------------
+
+// uiPieces: userinfo text the URL library leaves as it is (unreserved
+// characters, the sub-delimiters it does not escape, and upper-case escapes of
+// characters that must be escaped) - many read as printf sequences ("%25s",
+// "%20b", "%5B1%5Dd").  uiNormPieces: spellings the library re-spells when it
+// prints a URL (%41 -> A, %2f -> %2F, ! -> %21, a second ':' -> %3A).
+var uiPieces = []string{"op", "u", "x1", "-._~", "$&", "+,;=", "%25s", "%25d", "%20b", "%25%2Bv", "%40", "%3A", "%2F", "%3Fq", "%21", "%2A", "%5B1%5Dd", "%23x", "%2520", "%25%25", "%25-8.3f", "%22", "%25%21"}
+var uiNormPieces = []string{"%41", "%7e", "%2f", "!", "*", "'", "(", ")", "%64", "%73", "%2B", "%2d5s"}
+
+func uiText(rng *rand.Rand, needPct bool) string {
+	var sb strings.Builder
+	for k := 0; k < 1+rng.IntN(3); k++ {
+		if rng.IntN(12) == 0 {
+			sb.WriteString(uiNormPieces[rng.IntN(len(uiNormPieces))])
+		} else {
+			sb.WriteString(uiPieces[rng.IntN(len(uiPieces))])
+		}
+	}
+	if needPct && !strings.Contains(sb.String(), "%") {
+		sb.WriteString([]string{"%25s", "%20d", "%25v", "%2Fx"}[rng.IntN(4)])
+	}
+	return strings.ReplaceAll(sb.String(), "%!", "%25") // (cannot arise from the pieces; keeps the artefact test unambiguous)
+}
+
+var absSchemes = []string{"https", "https", "https", "https", "https", "https", "http", "http", "http", "HTTPS", "hTTps", "ftp", "x-y+z.1"}
+var absHosts = []string{"files.example", "h.example:8443", "Files.Example", "H.EXAMPLE:443", "127.0.0.1:4433", "[::1]", "[2001:db8::1]:8443", "[fe80::1%25eth0]:443"}
+
+// authority builds scheme://[userinfo@]host with every userinfo shape: user@,
+// user:pass@, :pass@, user:@ (empty password), :@, @, and none.
+func authority(rng *rand.Rand, host string) (prefix string, hasPw bool) {
+	if host == "" {
+		host = absHosts[rng.IntN(len(absHosts))]
+	}
+	ui := ""
+	switch v := rng.IntN(20); {
+	case v < 8:
+		ui, hasPw = uiText(rng, false)+":"+uiText(rng, true)+"@", true
+	case v < 11:
+		ui, hasPw = ":"+uiText(rng, true)+"@", true
+	case v < 14:
+		ui, hasPw = uiText(rng, true)+":@", true
+	case v < 17:
+		ui = uiText(rng, true) + "@"
+	case v < 18:
+		ui, hasPw = ":@", true
+	case v < 19:
+		ui = "@"
+	}
+	return absSchemes[rng.IntN(len(absSchemes))] + "://" + ui + host, hasPw
+}
+
+// pctDecode replaces every valid %XX triplet by the byte it denotes, in one
+// pass; anything else (a raw verb such as %s) stays.
+func pctDecode(s string) string {
+	hex := func(c byte) int {
+		switch {
+		case c >= '0' && c <= '9':
+			return int(c - '0')
+		case c >= 'a' && c <= 'f':
+			return int(c-'a') + 10
+		case c >= 'A' && c <= 'F':
+			return int(c-'A') + 10
+		}
+		return -1
+	}
+	var sb strings.Builder
+	for i := 0; i < len(s); i++ {
+		if s[i] == '%' && i+2 < len(s) && hex(s[i+1]) >= 0 && hex(s[i+2]) >= 0 {
+			sb.WriteByte(byte(hex(s[i+1])<<4 | hex(s[i+2])))
+			i += 2
+			continue
+		}
+		sb.WriteByte(s[i])
+	}
+	return sb.String()
+}
+
+// absNormalForm reports whether the URL library prints the target exactly as
+// it was written (then the notice has to carry it byte for byte).
+func absNormalForm(t string) bool {
+	u, err := url.ParseRequestURI(t)
+	return err == nil && u.String() == t
+}
+
+// absMatch: does the notice carry the absolute-form target the harness wrote?
+// verbatim = byte for byte.  modulo = its path and query byte for byte and the
+// whole target equal up to the spelling of percent-escapes (an escape and the
+// byte it denotes count as the same data, as for a c2 parameter or a callback
+// ID) and the case of the scheme.
+func absMatch(line, t string) (verbatim, modulo bool) {
+	if strings.Contains(line, t) {
+		return true, true
+	}
+	i := strings.Index(t, "://")
+	j := strings.IndexByte(t[i+3:], '/')
+	if i < 0 || j < 0 {
+		return false, false
+	}
+	pq := t[i+3+j:]
+	norm := strings.ToLower(t[:i]) + t[i:]
+	return false, strings.Contains(line, pq) && strings.Contains(pctDecode(line), pctDecode(norm))
+}
+
 func genReq(rng *rand.Rand, cfg string) reqT {
 	host := "h.example"
-	switch v := rng.IntN(12); {
+	switch v := rng.IntN(16); {
+	case v == 12 || v == 13: // file request whose target is in absolute-form, with userinfo
+		pre, pw := authority(rng, "")
+		t := pre + escPath(rng)
+		if rng.IntN(2) == 0 {
+			t += "?" + verbText(rng, func(c byte) bool { return c != ' ' && c != '#' && c > 32 && c < 127 })
+		}
+		if _, err := url.ParseRequestURI(t); err != nil {
+			return genReq(rng, cfg)
+		}
+		return reqT{class: "file-abs", raw: fmt.Sprintf("GET %s HTTP/1.1\r\nHost: %s\r\nConnection: close\r\n\r\n", t, host), abs: t, absPw: pw, expect: []string{t}}
+	case v == 14: // script, c2 parameter inside an absolute-form target
+		c2 := verbText(rng, func(c byte) bool { return c > 32 && c < 127 })
+		pre, pw := authority(rng, "")
+		return reqT{class: "script-abs-c2", raw: fmt.Sprintf("GET %s/c?c2=%s HTTP/1.1\r\nHost: %s\r\nConnection: close\r\n\r\n", pre, url.QueryEscape(c2), host), absPw: pw, expect: []string{c2}}
+	case v == 15: // script, callback taken from the host of an absolute-form target (the Host header is then ignored)
+		h := []string{"cb7.example", "a-b.example:8443", "x1.test:443", "127.0.0.1:4433"}[rng.IntN(4)]
+		pre, pw := authority(rng, h)
+		hh := "a" + verbText(rng, func(c byte) bool { return c == '%' || (c >= 'a' && c <= 'z') || (c >= '0' && c <= '9') }) + ".example"
+		return reqT{class: "script-abs-host", raw: fmt.Sprintf("GET %s/c HTTP/1.1\r\nHost: %s\r\nConnection: close\r\n\r\n", pre, hh), absPw: pw, expect: []string{h}}
 	case v < 3: // file request with escapes in the path and raw verbs in the query
 		t := escPath(rng)
 		if rng.IntN(2) == 0 {
@@ -179,16 +307,33 @@ func genReq(rng *rand.Rand, cfg string) reqT {
 		return reqT{class: "script-c2-header", raw: fmt.Sprintf("GET /c HTTP/1.1\r\nHost: %s\r\nc2: %s\r\nConnection: close\r\n\r\n", host, c2), expect: []string{c2}}
 	case v < 7: // script, callback from Host with percent signs
 		h := "a" + verbText(rng, func(c byte) bool { return c == '%' || (c >= 'a' && c <= 'z') || (c >= '0' && c <= '9') }) + ".example"
-		return reqT{class: "script-host", raw: fmt.Sprintf("GET /c HTTP/1.1\r\nHost: %s\r\nConnection: close\r\n\r\n", h), expect: []string{h}}
+		sub := ""
+		switch rng.IntN(5) {
+		case 0: // escapes that are legal inside a URL's host (%25, bytes >= 0x80): a Host header is not a URL, they stay as sent
+			sub = "url-legal-escapes"
+			h = "c2" + []string{"%25s", "%2520", "%25d%25v", "%c3%bcx", "%e4%be%8b", "%80d", "%25%25", "%9f%25q"}[rng.IntN(8)] + []string{".example", "b.example:8443", "x.test:443"}[rng.IntN(3)]
+		case 1: // RFC 6874 zoned IPv6 literal, with or without port
+			sub = "zoned-literal"
+			h = fmt.Sprintf("[fe80::%x:%x%%25%s]", rng.IntN(0x10000), 1+rng.IntN(0xffff), []string{"eth0", "docker0", "sit0", "veth1a", "en0", "bond0"}[rng.IntN(6)]) + []string{"", ":8443", ":443"}[rng.IntN(3)]
+		}
+		return reqT{class: "script-host", sub: sub, raw: fmt.Sprintf("GET /c HTTP/1.1\r\nHost: %s\r\nConnection: close\r\n\r\n", h), expect: []string{h}}
 	case v < 8: // script with an undecodable query: the error text quotes the client's escape
 		bad := "%" + string("zgxq"[rng.IntN(4)]) + string("zh"[rng.IntN(2)])
 		return reqT{class: "script-bad-escape", raw: fmt.Sprintf("GET /c?c2=%sd%s HTTP/1.1\r\nHost: %s\r\nConnection: close\r\n\r\n", bad, "%25s", host), expect: []string{bad}}
 	case v < 10: // input stream with a formatting ID
 		id := verbText(rng, idChars)
-		return reqT{class: "input-id", raw: fmt.Sprintf("GET /i/%s HTTP/1.1\r\nHost: %s\r\n\r\n", url.PathEscape(id), host), expect: []string{id, fmt.Sprintf("%q", id)}, stream: "i"}
+		pre := ""
+		if rng.IntN(4) == 0 {
+			pre, _ = authority(rng, "")
+		}
+		return reqT{class: "input-id", raw: fmt.Sprintf("GET %s/i/%s HTTP/1.1\r\nHost: %s\r\n\r\n", pre, url.PathEscape(id), host), expect: []string{id, fmt.Sprintf("%q", id)}, stream: "i"}
 	case v < 11: // output stream with a formatting ID
 		id := verbText(rng, idChars)
-		return reqT{class: "output-id", raw: fmt.Sprintf("POST /o/%s HTTP/1.1\r\nHost: %s\r\nTransfer-Encoding: chunked\r\n\r\n", url.PathEscape(id), host), expect: []string{id, fmt.Sprintf("%q", id)}, stream: "o"}
+		pre := ""
+		if rng.IntN(4) == 0 {
+			pre, _ = authority(rng, "")
+		}
+		return reqT{class: "output-id", raw: fmt.Sprintf("POST %s/o/%s HTTP/1.1\r\nHost: %s\r\nTransfer-Encoding: chunked\r\n\r\n", pre, url.PathEscape(id), host), expect: []string{id, fmt.Sprintf("%q", id)}, stream: "o"}
 	default: // two streams with different formatting IDs: the refusal names both
 		id := verbText(rng, idChars)
 		return reqT{class: "refused-id", raw: id, stream: "refuse"}
@@ -250,7 +395,7 @@ func runServer(r *mon.Run, si int, ct cfgT, n int) {
 				// the template could not be read or executed: that notice is not about client text
 				expect = nil
 			}
-			if status == 301 || status == 404 && ct.cfg.FDir == "" && q.class == "file" {
+			if status == 301 || status == 404 && ct.cfg.FDir == "" && strings.HasPrefix(q.class, "file") {
 				// the mux answered without any handler running: no notice is due
 				expect = nil
 			}
@@ -344,6 +489,15 @@ func judgeWindow(r *mon.Run, s *hk.Server, idx int, ct cfgT, q reqT, from, to in
 		if strings.Contains(e.S, "%!") {
 			r.Violate("req", idx, "formatter-artefact:"+q.class, fmt.Sprintf("operator notice contains a formatter artefact: %q (request class %s, server %s)", e.S, q.class, ct.name), map[string]any{"request": q.raw, "notices": texts})
 		}
+		if q.abs != "" && len(expect) > 0 {
+			// the whole absolute-form target is client text: byte for byte whenever the URL library
+			// prints it as written, else equal up to the spelling of escapes / the case of the scheme
+			verbatim, modulo := absMatch(e.S, q.abs)
+			if verbatim || modulo && !absNormalForm(q.abs) {
+				found = true
+			}
+			continue
+		}
 		for _, x := range expect {
 			if strings.Contains(e.S, x) {
 				found = true
@@ -351,8 +505,24 @@ func judgeWindow(r *mon.Run, s *hk.Server, idx int, ct cfgT, q reqT, from, to in
 		}
 	}
 	r.Count("requests:"+q.class, 1)
+	if q.sub != "" && len(expect) > 0 {
+		r.Count("expectations:"+q.class+":"+q.sub, 1)
+	}
 	if len(expect) > 0 {
 		r.Count("verbatim_expectations", 1)
+	}
+	if q.abs != "" && len(expect) > 0 {
+		if absNormalForm(q.abs) {
+			r.Count("abs_targets_expected_byte_for_byte", 1)
+		} else {
+			r.Count("abs_targets_expected_modulo_escape_spelling", 1)
+		}
+		if q.absPw {
+			r.Count("abs_targets_with_password_expected", 1)
+		}
+	}
+	if strings.Contains(q.raw, "://") {
+		r.Count("requests_in_absolute_form", 1)
 	}
 	if !found {
 		r.Violate("req", idx, "notice-omits-client-text:"+q.class, fmt.Sprintf("no operator notice contains the client-supplied text %q character for character (request class %s, server %s, status %d)", expect[0], q.class, ct.name, status), map[string]any{"request": q.raw, "notices": texts})
@@ -360,8 +530,8 @@ func judgeWindow(r *mon.Run, s *hk.Server, idx int, ct cfgT, q reqT, from, to in
 }
 
 func Run(r *mon.Run) {
-	r.Rule = "hsrv.Server in-process on real TLS in seven configurations (directory, unset, single file, missing directory, missing/failing/unparsable template - with % sequences in the configured paths); raw requests carrying printf-looking text ('%' + flags/width/precision/index/verb, '%%', URL escapes such as %20b whose raw form reads as a verb) in path, raw query, c2 parameter, c2 header, Host, undecodable escapes, /i/{id} and /o/{id}, and refusals naming two such IDs; after each request a marker line closes the window of operator notices, none of which may contain '%!' and one of which must contain the client text character for character (IDs also accepted in the Go-quoted form the broker prints). distinct = distinct request texts; all are non-trivial (each carries at least one '%')"
-	r.Assumptions = []string{"generated text never contains '%!' itself, so the artefact test is unambiguous", "only call sites a request or configuration can reach are covered"}
+	r.Rule = "hsrv.Server in-process on real TLS in seven configurations (directory, unset, single file, missing directory, missing/failing/unparsable template - with % sequences in the configured paths; two more with clients on an IPv6 link-local address, whose text carries a %zone); raw requests carrying printf-looking text ('%' + flags/width/precision/index/verb, '%%', URL escapes such as %20b whose raw form reads as a verb) in path, raw query, c2 parameter, c2 header, Host (also with the escapes a URL's host may carry - %25…, bytes >= 0x80 - and RFC 6874 zoned IPv6 literals), undecodable escapes, /i/{id} and /o/{id}, and refusals naming two such IDs; request-targets also in ABSOLUTE-FORM (scheme://userinfo@host/path?query with every userinfo shape - user@, user:pass@, :pass@, user:@, :@, @ - escapes and escaped verbs inside user and password, scheme/host case variants, zoned IPv6 hosts) for the file handler (echoes the target), the script handler (c2 parameter; callback taken from the target's host) and the stream handlers; after each request a marker line closes the window of operator notices, none of which may contain '%!' and one of which must contain the client text character for character (IDs also accepted in the Go-quoted form the broker prints; an absolute-form target must be there byte for byte as the harness wrote it whenever it is in the URL library's normal form - url.ParseRequestURI(t).String()==t, computed by the harness - and otherwise with its path and query byte for byte and the rest equal up to the spelling of percent-escapes and the case of the scheme). Engine broker: every refusal branch in gate mode with formatting IDs. Engine xerr (gate mode): attached shells of seven shapes (output alone, input alone with failing write / failing flush, both sides with either failing, /io with either failing) whose reader or writer - owned by the harness - fails with a *net.OpError built by the harness (Op, Net, Source, Addr with %zone such as eth0/docker0/sit0/veth…, Err = errno, syscall error or printf-looking text; also wrapped as crypto/tls does, and errors without addresses) for a client host fe80::…%zone: no notice may contain '%!', every notice starts with [client host], and a notice that reports the error (recognised by the client's port number / a token) must contain the error's text byte for byte. Engine rst (only on a machine with a link-local address): hsrv on real TLS bound to the link-local address itself and to [::], clients from the link-local address: reset (SO_LINGER 0) while the server reads /o and /io output (after a burst of output), reset or close while lines are being written to an /i or /io client that does not read (write stuck in full socket buffers), half-closes, with one or both sides attached: no '%!', [client host] prefix, callback ID verbatim, and a notice that names the client's port must contain the client's host:port as net prints it. distinct = distinct request texts / error texts; all are non-trivial (each carries at least one '%')"
+	r.Assumptions = []string{"generated text never contains '%!' itself, so the artefact test is unambiguous", "only call sites a request or configuration can reach are covered", "an escape and the byte it denotes are the same client data (as for c2 parameters and callback IDs): where the URL library re-spells the authority part of an absolute-form target (%41 -> A, %2f -> %2F, ! -> %21, HTTPS -> https) the notice may show either spelling; path and query are always expected byte for byte", "a port number in a notice of a case's window that equals the client's ephemeral port quotes that connection's addresses"}
 	cfgs := makeConfigs(r.Work)
 	per := r.N(400, 6000)
 	mon.Parallel(len(cfgs), runtime.NumCPU(), func(i int) {
@@ -372,7 +542,22 @@ func Run(r *mon.Run) {
 	if r.WantEngine("broker") {
 		brokerNotices(r)
 	}
+	if r.WantEngine("xerr") {
+		transportErrorsGate(r)
+	}
+	if r.WantEngine("rst") {
+		transportEndingsTLS(r, filepath.Join(r.Work, "files"))
+	}
 	r.Floor("notices_checked", 500)
 	r.Floor("verbatim_expectations", 300)
 	r.Floor("refusal_notices_checked", 20)
+	r.Floor("expectations:script-host:url-legal-escapes", 8)
+	r.Floor("expectations:script-host:zoned-literal", 8)
+	r.Floor("requests:file-abs", 100)
+	r.Floor("abs_targets_expected_byte_for_byte", 60)
+	r.Floor("abs_targets_expected_modulo_escape_spelling", 20)
+	r.Floor("abs_targets_with_password_expected", 60)
+	r.Floor("requests:script-abs-c2", 50)
+	r.Floor("requests:script-abs-host", 50)
+	r.Floor("requests_in_absolute_form", 300)
 }
